@@ -50,6 +50,7 @@ def run(repo, report, tier):
     report.guard("C01.R4", "Aligner._set_reference", r4_prefix_sums, repo, report)
     report.guard("C01.R5", "DP cell", r5_cell, repo, report)
     report.guard("C01.R5", "first DP column", r5_first_column, repo, report)
+    report.guard("C01.R5", "first DP row", r5_first_row, repo, report)
     report.guard("C01.R6", "comparers", r6_comparers, repo, report)
     report.guard("C01.R7", "result tuple", r7_tuple, repo, report)
     report.guard("C01.R7", "best-match record", r7_record_complete, repo, report)
@@ -1036,3 +1037,39 @@ def r7_record_complete(repo, report):
     report.ob("C01.R7", f"Aligner.locate: every update of '{rec}' assigns all of its fields", not bad and len(allf) >= 5 and len(by_record[rec]) >= 3, facts={"fields": sorted(allf), "sites": len(by_record[rec]), "incomplete": bad}, loc=repo.loc(fn),
               expected="initialisation, the last-row update and the last-column update each assign score, cost, origin, ref_stop and query_stop",
               why=(f"the update at line {bad[0]['line']} leaves {bad[0]['missing']} as it was: the reported match mixes the coordinates of two different candidates" if bad else ""))
+
+
+def r5_first_row(repo, report):
+    """Cell 0 of every later column (the adapter not yet begun): skipping a read base there is free iff the read's start may
+    be skipped (start_in_query); otherwise it is an insertion and costs the CONFIGURED insertion cost (with --no-indels that
+    cost is prohibitive, which is what keeps matches Hamming matches) and the insertion score.  The origin moves with the
+    column iff the read's start may be skipped."""
+    c, fn = repo.need_method("Aligner", "locate")
+    defs = {}
+    for n in ast.walk(fn):
+        if isinstance(n, ast.AnnAssign) and isinstance(n.target, ast.Name) and n.value is not None:
+            defs.setdefault(n.target.id, []).append(n.value)
+        elif isinstance(n, ast.Assign) and len(n.targets) == 1 and isinstance(n.targets[0], ast.Name):
+            defs.setdefault(n.targets[0].id, []).append(n.value)
+
+    def resolve(e, depth=3):
+        while depth and isinstance(e, ast.Name) and len(defs.get(e.id, [])) == 1:
+            e = defs[e.id][0]
+            depth -= 1
+        return e
+
+    want = {"cost": ("0", "self._insertion_cost"), "origin": ("1", "0"), "score": ("0", "self._insertion_score")}
+    got, locs = {}, {}
+    for n in ast.walk(fn):
+        if isinstance(n, ast.AugAssign) and isinstance(n.op, ast.Add) and isinstance(n.target, ast.Attribute) and isinstance(n.target.value, ast.Subscript) \
+                and isinstance(n.target.value.slice, ast.Constant) and n.target.value.slice.value == 0 and n.target.attr in want:
+            v = resolve(n.value)
+            locs[n.target.attr] = n
+            if isinstance(v, ast.IfExp) and src(v.test) == "self.start_in_query":
+                got[n.target.attr] = (src(resolve(v.body)), src(resolve(v.orelse)))
+            else:
+                got[n.target.attr] = ("?", src(v))
+    bad = {k: got.get(k) for k in want if got.get(k) != want[k]}
+    report.ob("C01.R5", "Aligner.locate: first cell of each column", not bad and len(got) == 3, facts={"increments (if start_in_query, else)": {k: list(v) for k, v in got.items()}, "wrong": {k: list(v) if v else None for k, v in bad.items()}},
+              expected="cost += 0 if start_in_query else self._insertion_cost; origin += 1 if start_in_query else 0; score += 0 if start_in_query else self._insertion_score", loc=repo.loc(locs.get("cost", fn)),
+              why=(f"{next(iter(bad))} of cell 0 is advanced by {bad[next(iter(bad))]}: read bases in front of the adapter are not charged the configured insertion cost, so with --no-indels a match may contain leading insertions (it is not a Hamming match any more)" if bad else ""))
